@@ -23,7 +23,7 @@ class Res:
         self.ops = {}        # (tid, idx) -> dict(inv, res, out, text)
         self.evs = {}        # (tid, idx) -> [tokens]
         self.bg = []         # [[tokens]]
-        self.snaps, self.imgs = [], {}
+        self.snaps, self.imgs = {}, {}
         self.dump = None
         self.close = None
         self.hang = None
@@ -58,7 +58,8 @@ def parse(out_lines):
         elif ln.startswith("bg "):
             cur.bg.append(ln.split()[2:])
         elif ln.startswith("snap "):
-            cur.snaps.append(ln.split(" ", 2)[2])
+            p = ln.split(" ", 2)
+            cur.snaps[int(p[1])] = p[2]
         elif ln.startswith("img "):
             p = ln.split(" ", 2)
             cur.imgs[int(p[1])] = p[2]
